@@ -24,8 +24,9 @@ TABLE = ["q", "Z", "é", "b", "א", "7"]
 ENGINE_BLANK = "​"
 CLAUSES = {1: "an exception was raised", 2: "greedy_decode_ctc text differs from the CTC collapse of the arg-max path",
            3: "GreedyDecoder text differs from the CTC collapse of the arg-max path",
-           4: "PytorchEngineLineOCR.run_ocr text differs from the CTC collapse of the arg-max path"}
-SIGS = {1: "exception", 2: "engine-decoder", 3: "standalone-decoder", 4: "run_ocr"}
+           4: "PytorchEngineLineOCR.run_ocr text differs from the CTC collapse of the arg-max path",
+           5: "char_confidences.greedy_filtration text differs from the CTC collapse of the arg-max path"}
+SIGS = {1: "exception", 2: "engine-decoder", 3: "standalone-decoder", 4: "run_ocr", 5: "greedy-filtration"}
 
 
 def configs(tier):
@@ -104,7 +105,7 @@ def _decode_one(item):
     else:
         _PERSISTENT_TABLE[:] = letters + [ENGINE_BLANK]
         chars = _PERSISTENT_TABLE
-    rec = {"paths": [list(p) for p in paths], "outcome": "ok", "eng": [], "alone": [], "ocr": [], "logits_same": True}
+    rec = {"paths": [list(p) for p in paths], "outcome": "ok", "eng": [], "alone": [], "ocr": [], "filt": [], "logits_same": True}
     try:
         sc = render(paths, nc, seed)
         assert (sc.argmax(axis=1) == np.array(paths)).all()
@@ -119,6 +120,14 @@ def _decode_one(item):
             txt = gd(lp).best_hyp().replace(BLANK_SYMBOL, ENGINE_BLANK)
             alone.append(_inverse(txt, chars))
         rec["alone"] = alone
+        # the third greedy transcription of the library (pero_ocr/char_confidences.py, per-character confidences for a line):
+        # posteriors frames x symbols, blank last
+        from pero_ocr.char_confidences import greedy_filtration
+        filt = []
+        for i in range(len(paths)):
+            pr = torch.softmax(torch.from_numpy(sc[i].T.astype(np.float64).copy()), dim=1).numpy()
+            filt.append(_inverse(greedy_filtration(pr, chars)[0], chars))
+        rec["filt"] = filt
         # the engine itself with a stub network (the network output IS the score tensor)
         e = PytorchEngineLineOCR.__new__(PytorchEngineLineOCR)
         e.device = torch.device("cpu")
@@ -161,8 +170,8 @@ def judge(ctx, c, traces):
     for idx, clause in rej:
         tr = traces[idx]
         ctx.violation({"cfg": c, "trace": tr, "seed": tr.get("seed", 0), "clause": clause}, SIGS.get(clause, "clause%d" % clause),
-                      "%s; C=%d (blank=%d) arg-max paths=%s -> engine=%s stand-alone=%s run_ocr=%s outcome=%s" % (
-                          CLAUSES.get(clause, "?"), c["C"], blank, tr["paths"], tr["eng"], tr["alone"], tr["ocr"], tr["outcome"]))
+                      "%s; C=%d (blank=%d) arg-max paths=%s -> engine=%s stand-alone=%s run_ocr=%s greedy_filtration=%s outcome=%s" % (
+                          CLAUSES.get(clause, "?"), c["C"], blank, tr["paths"], tr["eng"], tr["alone"], tr["ocr"], tr.get("filt"), tr["outcome"]))
     return acc, rej
 
 
